@@ -229,12 +229,14 @@ namespace nmtools::utl
 
         void push_back(const T& t)
         {
+            // t may refer to an element of this vector: copy it before the buffer can be reallocated
+            const T value = t;
             if (buffer_size_ < (size_ + 1)) {
                 resize(size_ + 1);
             } else {
                 size_ = size_ + 1;
             }
-            buffer_[size_-1] = t;
+            buffer_[size_-1] = value;
         }
 
         // TODO: support emplace_back
